@@ -90,8 +90,8 @@ def main(ctx):
                "random sets of up to 12 ranges, and multi-bank sets with ranges longer than the default transfer limits.  Non-trivial: the input has at least two ranges that overlap, "
                "nest, touch or lie within reach (so a merge decision is taken).")
     ev.assumptions = [
-        "ranges have count >= 1 (a zero-count 'range' requests no register; chains of them extend a merged "
-        "range beyond reach in design and code alike -- reported in DESIGN.md, outside the claimed domain)",
+        "inputs containing zero-count (empty) requests are judged without the reach clause (chains of them extend a merged "
+        "range beyond reach in design and code alike); sortedness, limits, banks and coverage of every requested register still hold",
         "register bank of an address = address div 10000, as the code defines it",
         "reach r means: every covered register lies within max(r,1) of a requested one",
     ]
@@ -125,6 +125,20 @@ def main(ctx):
             inp.append([a, c])
         inp.sort()
         jobs.append(("mergeP", (inp, rng.choice([0, 1, 2, 5, 10]), rng.choice([0, 0, 3, 7, 16])), 0))
+    # empty requests (count 0) among the ranges: nothing that is requested may be dropped because of them
+    for k in range(300 if ctx.quick else 5000):
+        basea = rng.choice([0, 1, 4]) * 10000 + rng.choice([1, 50, 9950])
+        inp = []
+        for _ in range(rng.randint(2, 6)):
+            a = basea + rng.randint(0, 40)
+            c = rng.choice([0, 0, 1, 2, 5])
+            if c and (a + c - 1) // 10000 != a // 10000:
+                c = 1
+            inp.append([a, c])
+        if not any(r[1] == 0 for r in inp) or not any(r[1] for r in inp):
+            continue
+        inp.sort()
+        jobs.append(("mergeP", (inp, rng.choice([0, 1, 2, 5, 10]), rng.choice([0, 0, 3, 7])), 0))
     # several register banks in one input, merged ranges longer than the default transfer limits (no limit given: 1968 for
     # coils / discrete inputs, 123 for registers -- per emitted range, whatever came before it)
     for k in range(60 if ctx.quick else 1500):
